@@ -15,3 +15,7 @@ open XsVerif.Props.C20
 #print axioms paths_agree_star_partial
 #print axioms paths_agree_star_counterexample
 #print axioms findAllP_names
+#print axioms loop_eq_spec
+#print axioms scope_inside_all
+#print axioms loopC_mixed_depth_counterexample
+#print axioms kOf_common_prefix
